@@ -634,7 +634,7 @@ def run(ctx, args):
         return replay(ctx, args.replay)
     rng = ctx.rng
     quick = ctx.tier == "quick"
-    n_trees = 260 if quick else 4000
+    n_trees = 260 if quick else 2500
     n_dir_rand = 40 if quick else 400
     n_fn = 1500 if quick else 30000
 
